@@ -80,6 +80,25 @@ CHECKS = {
           "Resumes = the handler was created and is running on the restarted daemon.",
   "technique": "TLA+ spec + TLC exhaustive model checking + spec-driven crash-point enumeration on the real daemon + TLC trace validation",
  },
+ "C08": {
+  "text": "TLA+ open-system model of one dkg.Process (DKG.tla: both DB buckets, every operator command, every gossip packet of a finite catalogue with single mutations, time passing, execution outcome), "
+          "exhaustive per role (leader, member, leaver, joiner); every status-graph edge, every refused call per state class, every shortest model counterexample and seeded multi-epoch TLC walks "
+          "(abort / fail / retry, byte-identical re-sends) are executed on a real dkg.Process (bolt store, real BLS signatures, real kyber executions against harness peers); TLC re-applies the transition "
+          "function to each recorded call (Conformance) and evaluates LegalStep, EpochMonotone, FinishedOnlyByLaterComplete, RejectedKeepsFinished, RejectedLeavesUsable, InvalidProposalRejected and "
+          "StillUsable on the observed buckets.",
+  "design_ref": "DESIGN.md 4 C08",
+  "note": "kyber DKG outcome and qualified set are environment choices; bbolt atomicity trusted; participant lists as sets; the Dkg oneof variant is exercised by C14, not here; v1->v2 migration not exercised; "
+          "bounds 2-3 epochs, 5 identities; real-time timeouts (late scenarios retried or dropped, counted in the evidence).",
+  "technique": "TLA+ spec + TLC exhaustive model checking + replay of TLC behaviours on a real dkg.Process + TLC trace validation",
+ },
+ "C09": {
+  "text": "Same DKG.tla machinery as C08 with identities modelled as (address, key, self-signature) triples incl. attacker keys placed under members' addresses; monitors C09_SignedBySender, C09_KeyFromGroup, "
+          "C09_Entitled, C09_SigCoversTerms evaluated by TLC over packet type x claimed sender x signing key x single-field tampering in every state class, on packets concretised with real keys and "
+          "signatures and sent to a real dkg.Process.Packet.",
+  "design_ref": "DESIGN.md 4 C09",
+  "note": "BLS unforgeability assumed; what was signed is harness ground truth; finite identity catalogue (3 members + joiner + outsider + substituted keys).",
+  "technique": "TLA+ spec + TLC exhaustive model checking + replay of TLC behaviours on a real dkg.Process + TLC trace validation",
+ },
  "C10": {
   "text": "Exhaustive bounded TLC exploration of SyncClient.tla: three peers, all behaviour mixes up to symmetry over Honest, Silent, Stall, CloseEarly, BadSig, WrongRound, ForeignId, "
           "transient-then-honest and behind-the-target, chained and unchained, start heights and targets, participant / follow / repair modes, concurrent Sync goroutines plus the aggregator; "
